@@ -206,6 +206,35 @@ ValidateRevocation(s, n, secret, AtomicRevocation) ==
                           !.prevC = IF n + 2 >= s.nc THEN NoC ELSE s.prevC])
 
 ---------------------------------------------------------------------------
+\* protocol-handler composites (vls-protocol-signer handler.rs), protocol version v:
+\*   v < 5 : ValidateCommitmentTx = validate, then revoke the previous commitment at once
+\*   v >= 5: ValidateCommitmentTx = validate, then (n = 0) activate / (n > 0) fetch point n+1;
+\*           RevokeCommitmentTx(n) = revoke_previous_holder_commitment(n+1)
+\*   v < 6 : GetPerCommitmentPoint(n) also returns secret n-2 (n >= 2)
+\* The two parts are not one atomic step in the code: when the second part refuses, what the
+\* first part changed stays (modelled as is).
+HValidate(s, v, n, c, sig, RCC) ==
+  LET o1 == ValidateHolder(s, n, c, sig) IN
+  IF ~o1.resp.ok THEN Err(s)
+  ELSE IF v < 5 THEN
+         LET o2 == Revoke(o1.s, n, RCC) IN
+         IF o2.resp.ok THEN o2 ELSE Err(o1.s)
+  ELSE IF n = 0 THEN
+         LET o2 == Activate(o1.s) IN
+         IF o2.resp.ok THEN o2 ELSE Err(o1.s)
+  ELSE LET o2 == GetPoint(o1.s, n + 1) IN
+       IF o2.resp.ok THEN o2 ELSE Err(o1.s)
+
+HRevoke(s, v, n, RCC) == IF v < 5 THEN Err(s) ELSE Revoke(s, n + 1, RCC)
+
+HGetPoint(s, v, n) ==
+  LET o1 == GetPoint(s, n) IN
+  IF ~o1.resp.ok THEN Err(s)
+  ELSE IF v < 6 /\ n >= 2 THEN
+         (IF GetSecret(s, n - 2).resp.ok THEN OkPtSec(s, n, n - 2) ELSE Err(s))
+  ELSE o1
+
+---------------------------------------------------------------------------
 \* the transition function; `k` carries the two behaviour switches
 Step(s, r, k) ==
   CASE r.op = "GetPoint"            -> GetPoint(s, r.n)
@@ -222,6 +251,13 @@ Step(s, r, k) ==
     [] r.op = "ValidateRevocation"  -> ValidateRevocation(s, r.n, [t |-> r.t, n |-> r.m],
                                                           k.atomicRevocation)
     [] r.op = "Restart"             -> Ok(s)
+    [] r.op = "HValidate"           -> HValidate(s, r.v, r.n, r.c, r.sig, k.revokeChecksClosed)
+    [] r.op = "HRevoke"             -> HRevoke(s, r.v, r.n, k.revokeChecksClosed)
+    [] r.op = "HGetPoint"           -> HGetPoint(s, r.v, r.n)
+    [] r.op = "HSignHolder"         -> SignHolder(s, r.n)
+    [] r.op = "HSignCp"             -> SignCp(s, r.n, r.t, r.c)
+    [] r.op = "HValidateRevocation" -> ValidateRevocation(s, r.n, [t |-> r.t, n |-> r.m],
+                                                          k.atomicRevocation)
     [] OTHER                        -> Err(s)
 
 (***************************************************************************)
@@ -247,7 +283,8 @@ Ghost(g, r, resp, ph, nhPre, mon) ==
       m3 == mon \in {"C03", "all"}
       disc(n) == IF n >= 0 THEN {n} ELSE {}
       g1 == IF (m1 \/ m2) /\ resp.ok /\ resp.sec >= 0
-                 /\ r.op \in {"GetSecret", "GetSecretOrNone", "Revoke"}
+                 /\ r.op \in {"GetSecret", "GetSecretOrNone", "Revoke",
+                              "HValidate", "HRevoke", "HGetPoint"}
             THEN [g EXCEPT !.disclosed = @ \cup disc(resp.sec),
                            !.stubLeak = @ \/ ph = "stub"]
             ELSE g
@@ -256,16 +293,20 @@ Ghost(g, r, resp, ph, nhPre, mon) ==
                               !.discAtSign = IF g1.signedH = {} THEN g1.disclosed ELSE @,
                               !.nhSeen = n]
   IN
-  IF ~resp.ok THEN g1
-  ELSE CASE r.op = "ValidateHolder" /\ r.sig = "good" /\ m1
+  \* a handler validate that is refused by its SECOND part has still accepted the commitment:
+  \* for handler requests "presented with verifying signatures" is what is observable
+  IF r.op = "HValidate" /\ r.sig = "good" /\ m1 /\ ~resp.ok
+  THEN [g1 EXCEPT !.acceptedValid = @ \cup {r.n}]
+  ELSE IF ~resp.ok THEN g1
+  ELSE CASE r.op \in {"ValidateHolder", "HValidate"} /\ r.sig = "good" /\ m1
               -> [g1 EXCEPT !.acceptedValid = @ \cup {r.n}]
-         [] r.op = "SignHolder"          -> signed(r.n)
+         [] r.op \in {"SignHolder", "HSignHolder"} -> signed(r.n)
          [] r.op = "SignHolderRedundant" -> signed(r.n)
          [] r.op = "SignHolderRecovery"  -> signed(nhPre - 1)
-         [] r.op = "SignCp" /\ m3
+         [] r.op \in {"SignCp", "HSignCp"} /\ m3
               -> [g1 EXCEPT !.cpSigned = @ \cup {<<r.n, [t |-> r.t, n |-> r.n], r.c>>},
                             !.badSignCp = @ \/ \E j \in 0..(r.n - 2) : j \notin g1.cpRevoked]
-         [] r.op = "ValidateRevocation" /\ m3
+         [] r.op \in {"ValidateRevocation", "HValidateRevocation"} /\ m3
               -> [g1 EXCEPT !.cpRevoked = @ \cup {r.n},
                             !.cpSecrets = @ \cup {<<r.n, [t |-> r.t, n |-> r.m]>>}]
          [] OTHER -> g1
@@ -319,5 +360,16 @@ Requests(N, HC, CC, TT) ==
   \cup {[op |-> "SignCp", n |-> n, t |-> t, c |-> c] : n \in 0..N + 1, t \in TT, c \in CC}
   \cup {[op |-> "ValidateRevocation", n |-> n, t |-> t, m |-> m] :
             n \in 0..N, t \in TT, m \in 0..N}
+  \cup {[op |-> "Restart"]}
+
+\* protocol-handler level alphabet (protocol versions 4, 5, 6)
+HandlerRequests(N, HC, TT) ==
+       {[op |-> "HValidate", v |-> v, n |-> n, c |-> c, sig |-> sg] :
+            v \in {4, 5, 6}, n \in 0..N + 1, c \in HC, sg \in {"good", "badcommit"}}
+  \cup {[op |-> "HRevoke", v |-> v, n |-> n] : v \in {4, 5, 6}, n \in 0..N}
+  \cup {[op |-> "HGetPoint", v |-> v, n |-> n] : v \in {4, 5, 6}, n \in 0..N + 2}
+  \cup {[op |-> "HSignHolder", n |-> n] : n \in 0..N}
+  \cup {[op |-> "HSignCp", n |-> n, t |-> t, c |-> c] : n \in 0..1, t \in TT, c \in {"A"}}
+  \cup {[op |-> "HValidateRevocation", n |-> n, t |-> t, m |-> n] : n \in 0..1, t \in TT}
   \cup {[op |-> "Restart"]}
 =============================================================================
